@@ -70,7 +70,10 @@ type Scenario struct {
 	ShutAfter   int            `json:"shut_after,omitempty"`      // udp: Shutdown is called after this many steps, while peers are still sending (0 = after they are done)
 	Transient   []int          `json:"transient,omitempty"`       // these accept / datagram-read attempts fail with a temporary, non-timeout error
 	UDPSock     bool           `json:"udp_sock,omitempty"`        // udp: the server runs on a UDP socket (SessionUDP branch) where the build has that seam
-	PostYield   bool           `json:"post_yield,omitempty"`      // the return of every transport operation is a scheduling point of its own
+	PostYield   bool           `json:"post_yield,omitempty"`
+	Pace        int            `json:"pace_ms,omitempty"`       // tcp: the server keeps its default timeouts (2 s for the first message of a connection, 8 s idle between messages) and every peer pauses this long before each frame after its first: long-lived connections, each message well inside the idle timeout
+	Anonymous   bool           `json:"anonymous,omitempty"`     // udp: the socket is of a kind whose peers have no address (unixgram, unbound clients): reads report none, replies cannot be routed - they are collected where the socket refuses them
+	FinWithData bool           `json:"fin_with_data,omitempty"` // tcp: peers end their sending right behind their last frame, and the read that returns the last octets returns io.EOF with them      // the return of every transport operation is a scheduling point of its own
 	Msgs        []InMsg        `json:"msgs,omitempty"`
 	Initial     map[string]int `json:"initial,omitempty"` // mux: patterns registered before the tasks start
 	Ops         []MuxOp        `json:"ops,omitempty"`
@@ -199,6 +202,20 @@ func Gen(seed uint64, tier string) any {
 		if sc.CutOctets >= len(b) {
 			sc.CutOctets = max(len(b)-1, 0)
 		}
+	}
+	if sc.Transport == "tcp" && sc.StallAt == 0 && sc.CutAt == 0 {
+		switch x := r.IntN(100); {
+		case x < 12:
+			sc.Pace = core.Pick(r, 2100, 2500, 4000, 6500)
+			if len(sc.Msgs) > 8 {
+				sc.Msgs = sc.Msgs[:8]
+			}
+		case x < 24:
+			sc.FinWithData = true
+		}
+	}
+	if sc.Transport == "udp" && sc.Soak == "" && core.Chance(r, 10) {
+		sc.Anonymous, sc.UDPSock = true, false
 	}
 	if core.Chance(r, 12) {
 		sc.Transient = append(sc.Transient, r.IntN(3))
@@ -533,6 +550,10 @@ func (p *peerTask) RunEvent(time.Time) {
 		if sconn != nil {
 			fr := oracle.Frame(b)
 			sentFrames++
+			if a.sc.Pace > 0 && sentFrames > 1 {
+				k.Sleep("peer.pace", time.Duration(a.sc.Pace)*time.Millisecond)
+				k.Bump("fault.long_pause_between_messages_of_a_connection")
+			}
 			if a.sc.StallAt == sentFrames {
 				k.Bump("fault.peer_stalls_mid_frame")
 				if a.sc.Trickle && len(fr) >= 8 {
@@ -572,6 +593,10 @@ func (p *peerTask) RunEvent(time.Time) {
 			dconn.Write(b)
 		}
 		k.Yield("peer.next", 0)
+	}
+	if sconn != nil && a.sc.FinWithData {
+		sconn.CloseWrite()
+		k.Bump("fault.peer_ends_sending_behind_last_frame")
 	}
 	// leave the server time to work through everything, then go away
 	k.Sleep("peer.linger", 2*time.Second)
@@ -680,6 +705,12 @@ func runAdmission(sc *Scenario, res *core.Result, verbose bool) {
 	if sc.Soak == "idle" {
 		a.srv.ReadTimeout = 0 // the library's default: the read loop wakes every two seconds
 	}
+	if sc.Pace > 0 && sc.StallAt == 0 {
+		a.srv.ReadTimeout, a.srv.IdleTimeout = 0, nil // the library's defaults
+	}
+	if sc.FinWithData {
+		n.Stream.EOFWithData = 70
+	}
 	if sc.Transport == "tcp" {
 		a.l = n.Listen()
 		a.srv.Listener = a.l
@@ -691,6 +722,10 @@ func runAdmission(sc *Scenario, res *core.Result, verbose bool) {
 			a.srv.PacketConn = common.ServerSocket(uc)
 			res.Bump("cover.server_on_udp_socket")
 		}
+	}
+	if a.pc != nil && sc.Anonymous && a.srv.PacketConn == net.PacketConn(a.pc) {
+		a.pc.Anonymous = true
+		res.Bump("cover.peers_without_address")
 	}
 	if a.pc != nil {
 		a.pc.Transient = sc.Transient
@@ -795,6 +830,9 @@ func (a *adm) judge() {
 			if d.From.S == "10.0.0.1:53" && !d.Injected && d.CopyOf == 0 {
 				add(d.Orig)
 			}
+		}
+		for _, b := range a.pc.Unroutable {
+			add(b) // (a reply to a peer without an address: the server made it, the socket had nowhere to send it)
 		}
 	} else {
 		for _, c := range a.n.Conns {
